@@ -31,7 +31,7 @@ def load(rel, repo=None, resolve_includes=True, _depth=0):
     if not os.path.exists(p):
         raise C.CheckError("template %s does not exist" % rel)
     with open(p, encoding="utf-8") as f:
-        toks = tokens(f.read())
+        toks = tokens(C.template_canon(rel, f.read(), repo))
     if not resolve_includes or _depth > 5:
         return toks
     out = []
